@@ -627,3 +627,209 @@ Example C01_two_objects_by_theorem :
   /\ multi_delivered (tx_cfg true false) tm_inst tm_content9 9 r c.
 Proof. exact tc_session_by_theorem. Qed.
 (* ===== end block: C02MultiObj ===== *)
+
+From FluteV Require Import Proofs.C01Transfers.
+(* ===== block: C01Transfers ===== *)
+(* "EXACTLY ONE COPY (ONE PER TRANSFER WHEN RECEIVE-ONCE IS DISABLED)" - Proofs/C01Transfers.v, receiver model (Model/Recv.v).
+   The session: one FDT packet (TOI 0, a whole live instance whose entry for the object is what C02_session_fdt_first_delivers
+   asks: GoodFdtPkt, unfolded in C01_transfers_vocabulary), then ANY alternation [items] of
+   - whole transfers of the No-Code object by the sender model (IXfer: wire_pkts of an accepted configuration, any window >= 1,
+     close-object flag on the last packet or not, either build profile - so in particular m consecutive transfers with the
+     flag on the last one only), and
+   - FDT packets (IFdt: duplicates of the instance, or NEWER instance ids, each listing the object with the same entry and the
+     same cache directive), before, between and after the transfers.
+   m = nxfers items.  The environment accepts the writers (toi,k) it is asked for (builder stores, open and writes succeed),
+   MD5 absent or matching, L <= max cache, <= 4097 blocks.
+   WHAT THE MODEL DOES, EXACTLY (C01_transfers_exact_copies): every packet is accepted and the WHOLE log of the run is [XLog cnt]:
+   cnt deliveries in a row - builder, open (toi,k), writes whose bytes are the content, complete (toi,k) for k = 0 .. cnt-1 -
+   and nothing else, where  cnt = copies cfg nc m = (if cf_once && not no-cache then min 1 m else m);
+   the object map and the error list are empty at the end.  Hence (C01_transfers_log_statement): writer (toi,j) got
+   open . writes = content . complete for j < cnt, NO writer (toi,j) exists for j >= cnt, P_C01_object with cnt copies.
+   - receive-once, cacheable object (C01_transfers_receive_once): exactly ONE writer (toi,0), however many transfers and FDT
+     packets follow; no writer (toi,n), n >= 1, is ever opened.
+   - receive-once disabled (C01_transfers_one_per_transfer): exactly m writers (toi,0) .. (toi,m-1), each a byte-exact copy,
+     none beyond - with or without FDT packets between the transfers, with or without the close flag, whatever the cache
+     directive.  Mechanism: the first packet of a transfer is the source symbol (0,0) (C01_wire_transfer_shape, proved of the
+     sender model), which removes the TOI from rv_completed and re-creates the object.
+   THE STATEMENT "EXACTLY ONE COPY" IS FALSE OF THE MODEL in two configurations with receive-once ENABLED:
+   - Cache-Control: no-cache on the object: rv_completed never lists it (check_object_state), every transfer is delivered
+     again by a new writer: cnt = m  [C01_once_nocache_refuted: 3 transfers, 3 copies]; the theorem covers it (nc = true);
+   - a newer FDT instance that does NOT list the object between two transfers: gc_object_completed forgets the TOI, the older
+     instance still in fdt_current is attached to the re-created object: second copy
+     [C01_once_newer_instance_without_object_refuted]; excluded by GoodFdtPkt (every FDT packet lists the object).
+   "ONE PER TRANSFER" (receive-once disabled, cacheable) needs each transfer to BEGIN with symbol (0,0): the same packets in
+   another order leave a writer open and an object in the map [C01_restart_needs_first_symbol_refuted]; the sender model
+   always begins with it.  Not needed when receive-once is on or the object is no-cache.
+   Receiver-level generalisation (C01_transfers_exact_copies_receiver): the transfers are ANY packet lists of the TOI that are
+   genuine, carry the close flag only where the object is recoverable, contain every source symbol and no payload id twice
+   (any order - plus "first packet = symbol (0,0)" in the one configuration above).  Key lemma: the object cannot complete
+   before every source symbol was pushed (black box: flip a byte of the missing symbol; the same packets are genuine for
+   the other content and the log cannot spell both).
+   Not covered: an FDT packet in the MIDDLE of a transfer, transfers of several objects interleaved, other FEC schemes. *)
+Theorem C01_transfers_exact_copies : forall rep rsrc E parse_fdt cfg oti content toi md5 nc now pf0 items,
+  let L := lenN_ content in
+  nocode_ok oti L -> toi <> 0 ->
+  GoodFdtPkt cfg oti content toi md5 now nc parse_fdt pf0 ->
+  Forall (sender_item_ok rep rsrc cfg parse_fdt oti content toi md5 nc now) items ->
+  let cnt := copies cfg nc (nxfers items) in
+  (forall k, (k < cnt)%nat ->
+     e_builder E toi k = WStore /\ e_open_ok E (toi, k) = true /\ forall i, e_write_ok E (toi, k) i = true) ->
+  md5_good E content md5 -> L <= cf_max_cache cfg -> nb_blocks_of oti L <= 4097 ->
+  let '(xs, r, c) := recv_run E parse_fdt cfg recv0 (map (fun p => RvPush p now) (pf0 :: flatten items)) ctx0 in
+  Forall (fun x => x = POk) xs
+  /\ XLog content toi cnt (c_log c)
+  /\ rv_objects r = [] /\ rv_error r = [] /\ rv_completed r = (if nc then [] else if Nat.eqb cnt 0 then [] else [toi]).
+Proof. exact transfers_sender_exact. Qed.
+Print Assumptions C01_transfers_exact_copies.
+
+Theorem C01_transfers_exact_copies_receiver : forall E parse_fdt cfg oti content toi md5 nc now pf0 items,
+  let L := lenN_ content in
+  nocode_ok oti L -> toi <> 0 ->
+  GoodFdtPkt cfg oti content toi md5 now nc parse_fdt pf0 ->
+  Forall (item_wire_ok cfg parse_fdt oti content toi md5 nc now) items ->
+  let cnt := copies cfg nc (nxfers items) in
+  (forall k, (k < cnt)%nat ->
+     e_builder E toi k = WStore /\ e_open_ok E (toi, k) = true /\ forall i, e_write_ok E (toi, k) i = true) ->
+  md5_good E content md5 -> L <= cf_max_cache cfg -> nb_blocks_of oti L <= 4097 ->
+  let '(xs, r, c) := recv_run E parse_fdt cfg recv0 (map (fun p => RvPush p now) (pf0 :: flatten items)) ctx0 in
+  Forall (fun x => x = POk) xs
+  /\ XLog content toi cnt (c_log c)
+  /\ rv_objects r = [] /\ rv_error r = [] /\ rv_completed r = (if nc then [] else if Nat.eqb cnt 0 then [] else [toi]).
+Proof. exact transfers_exact. Qed.
+Print Assumptions C01_transfers_exact_copies_receiver.
+
+Theorem C01_transfers_log_statement : forall content toi m l, XLog content toi m l ->
+  (forall j, (j < m)%nat -> delivered_calls content (calls_of (toi, j) l)
+                            /\ forall mt, complete_exact content (mt, calls_of (toi, j) l) = true)
+  /\ (forall j, (m <= j)%nat -> calls_of (toi, j) l = [])
+  /\ (forall t j, t <> toi -> calls_of (t, j) l = [])
+  /\ (forall mt, P_C01_object mt content (N.of_nat m) (map (fun j => (mt, calls_of (toi, j) l)) (seq 0 m)) = true)
+  /\ (m = 1%nat -> ShapeDone content (toi, 0%nat) toi (mk_ctx [] [] l false)).
+Proof. exact xlog_statement. Qed.
+Print Assumptions C01_transfers_log_statement.
+
+Theorem C01_transfers_receive_once : forall rep rsrc E parse_fdt cfg oti content toi md5 now pf0 items,
+  let L := lenN_ content in
+  nocode_ok oti L -> toi <> 0 -> cf_once cfg = true -> (1 <= nxfers items)%nat ->
+  GoodFdtPkt cfg oti content toi md5 now false parse_fdt pf0 ->
+  Forall (sender_item_ok rep rsrc cfg parse_fdt oti content toi md5 false now) items ->
+  e_builder E toi 0 = WStore -> e_open_ok E (toi, 0%nat) = true -> (forall i, e_write_ok E (toi, 0%nat) i = true) ->
+  md5_good E content md5 -> L <= cf_max_cache cfg -> nb_blocks_of oti L <= 4097 ->
+  let '(xs, r, c) := recv_run E parse_fdt cfg recv0 (map (fun p => RvPush p now) (pf0 :: flatten items)) ctx0 in
+  Forall (fun x => x = POk) xs
+  /\ ShapeDone content (toi, 0%nat) toi (mk_ctx [] [] (c_log c) false)
+  /\ delivered_calls content (calls_of (toi, 0%nat) (c_log c))
+  /\ (forall j, (1 <= j)%nat -> calls_of (toi, j) (c_log c) = [])
+  /\ (forall mt, P_C01_object mt content 1 [(mt, calls_of (toi, 0%nat) (c_log c))] = true)
+  /\ rv_objects r = [] /\ rv_error r = [] /\ rv_completed r = [toi].
+Proof. exact transfers_once. Qed.
+Print Assumptions C01_transfers_receive_once.
+
+Theorem C01_transfers_one_per_transfer : forall rep rsrc E parse_fdt cfg oti content toi md5 nc now pf0 items,
+  let L := lenN_ content in
+  let m := nxfers items in
+  nocode_ok oti L -> toi <> 0 -> cf_once cfg = false ->
+  GoodFdtPkt cfg oti content toi md5 now nc parse_fdt pf0 ->
+  Forall (sender_item_ok rep rsrc cfg parse_fdt oti content toi md5 nc now) items ->
+  (forall k, (k < m)%nat ->
+     e_builder E toi k = WStore /\ e_open_ok E (toi, k) = true /\ forall i, e_write_ok E (toi, k) i = true) ->
+  md5_good E content md5 -> L <= cf_max_cache cfg -> nb_blocks_of oti L <= 4097 ->
+  let '(xs, r, c) := recv_run E parse_fdt cfg recv0 (map (fun p => RvPush p now) (pf0 :: flatten items)) ctx0 in
+  Forall (fun x => x = POk) xs
+  /\ XLog content toi m (c_log c)
+  /\ (forall j, (j < m)%nat -> delivered_calls content (calls_of (toi, j) (c_log c)))
+  /\ (forall j, (m <= j)%nat -> calls_of (toi, j) (c_log c) = [])
+  /\ (forall mt, P_C01_object mt content (N.of_nat m) (map (fun j => (mt, calls_of (toi, j) (c_log c))) (seq 0 m)) = true)
+  /\ rv_objects r = [] /\ rv_error r = [].
+Proof. exact transfers_each. Qed.
+Print Assumptions C01_transfers_one_per_transfer.
+
+(* what one uninterrupted transfer of the sender model looks like to the receiver: packets of the TOI, genuine, the close
+   flag only where the object is recoverable, every source symbol, no payload id twice - and the FIRST packet is the source
+   symbol (0,0) (is_first_symbol, what push_obj tests to restart a completed object) *)
+Theorem C01_wire_transfer_shape : forall rep rsrc c content oti toi,
+  BlockEnc.c_fec c = NoCode -> filedesc_accepts c = true -> BlockEnc.c_tlen c = lenN content -> 0 < BlockEnc.c_tlen c ->
+  (1 <= BlockEnc.c_window c)%nat -> C01Full.oti_matches c oti ->
+  xfer_wire_ok oti content toi (wire_pkts rep rsrc c content toi) /\ starts_first (wire_pkts rep rsrc c content toi).
+Proof. exact wire_transfer_ok. Qed.
+Print Assumptions C01_wire_transfer_shape.
+
+(* the vocabulary, unfolded once *)
+Theorem C01_transfers_vocabulary : forall rep rsrc cfg parse_fdt oti content toi md5 nc now pf T m k l,
+  (GoodFdtPkt cfg oti content toi md5 now nc parse_fdt pf <->
+   exists id foti d inst f,
+     fdt_pkt_ok pf id foti d /\ parse_fdt d = Some inst /\ fdt_live cfg inst pf now
+     /\ find (fun f => ff_toi f =? toi) (fi_files inst) = Some f /\ ff_cenc f = CNull
+     /\ match ff_oti f with Some x => Some x | None => fi_oti inst end = Some oti
+     /\ ff_tlen f = lenN_ content /\ ff_md5 f = md5 /\ ff_nocache f = nc)
+  /\ (sender_item_ok rep rsrc cfg parse_fdt oti content toi md5 nc now (IXfer T) <->
+      exists c, BlockEnc.c_fec c = NoCode /\ filedesc_accepts c = true /\ BlockEnc.c_tlen c = lenN content /\ 0 < BlockEnc.c_tlen c
+                /\ (1 <= BlockEnc.c_window c)%nat /\ C01Full.oti_matches c oti /\ T = wire_pkts rep rsrc c content toi)
+  /\ (sender_item_ok rep rsrc cfg parse_fdt oti content toi md5 nc now (IFdt pf) <->
+      GoodFdtPkt cfg oti content toi md5 now nc parse_fdt pf)
+  /\ (item_wire_ok cfg parse_fdt oti content toi md5 nc now (IXfer T) <->
+      (Forall (fun p => a_toi p = toi) T /\ Forall (fun p => genuine_pkt oti content p = true) T
+       /\ close_flag_ok oti (lenN_ content) T /\ recoverable oti (lenN_ content) T = true /\ NoDup (map pid_of T))
+      /\ (cf_once cfg = false -> nc = false ->
+          match T with p :: _ => is_first_symbol p = Some true | [] => False end))
+  /\ copies cfg nc m = (if cf_once cfg && negb nc then Nat.min 1 m else m)
+  /\ (XLog content toi 0 l <-> l = [])
+  /\ (XLog content toi (S k) l <->
+      exists l0 evs, l = l0 ++ [EvBuilder toi WStore; EvOpen (toi, k) true] ++ evs ++ [EvComplete (toi, k)]
+                     /\ XLog content toi k l0 /\ forallb (is_write (toi, k)) evs = true /\ wdata evs = content).
+Proof. exact transfers_vocabulary. Qed.
+Print Assumptions C01_transfers_vocabulary.
+
+(* object level: once complete() has run, any further packet leaves the object and the log unchanged *)
+Theorem C01_completed_object_ignores_packets : forall E o c p,
+  or_push E p (fst (complete o c)) (snd (complete o c)) = complete o c.
+Proof. exact after_complete_ignores. Qed.
+Print Assumptions C01_completed_object_ignores_packets.
+
+(* non-vacuity, m = 3: the toy session of C02 (document "<>", instance listing TOI 7 = the 5-byte object, E = 2, B = 2), three
+   transfers by the sender model (two interleaved blocks, debug profile; the last one with the close flag), the FDT packet
+   re-sent between and after them (instance id 1 again, and a newer id 2): 14 packets, all accepted.
+   receive-once: the log is ONE delivery by writer (7,0); receive-once disabled: three deliveries (7,0) (7,1) (7,2),
+   also for a no-cache object *)
+Example C01_three_transfers_computed :
+  map (fun q => (pid_of q, a_close_obj q)) (x3_T true) = [((0, 0), false); ((1, 0), false); ((0, 1), true)]
+  /\ sess (tx_parse false None) (tx_cfg true false) (tx_fdt None :: flatten x3_items) = (repeat POk 14, [], [7], [], copy_log 0)
+  /\ sess (tx_parse false None) (tx_cfg false false) (tx_fdt None :: flatten x3_items)
+     = (repeat POk 14, [], [7], [], copy_log 0 ++ copy_log 1 ++ copy_log 2)
+  /\ sess (tx_parse true None) (tx_cfg false false) (tx_fdt None :: flatten x3_items)
+     = (repeat POk 14, [], [], [], copy_log 0 ++ copy_log 1 ++ copy_log 2).
+Proof. vm_compute. repeat split. Qed.
+
+(* the same session by the theorem, both settings of receive-once and of the cache directive *)
+Example C01_three_transfers_by_theorem : forall once nc,
+  let '(xs, r, c) := recv_run env_ok (tx_parse nc None) (tx_cfg once false) recv0
+                       (map (fun p => RvPush p 100%Z) (tx_fdt None :: flatten x3_items)) ctx0 in
+  Forall (fun x => x = POk) xs
+  /\ XLog ex_content 7 (if once && negb nc then 1 else 3)%nat (c_log c)
+  /\ rv_objects r = [] /\ rv_error r = [] /\ rv_completed r = (if nc then [] else [7]).
+Proof. exact x3_by_theorem. Qed.
+
+(* REFUTED: "exactly one copy" with receive-once ENABLED, object announced with Cache-Control: no-cache: three copies *)
+Example C01_once_nocache_refuted :
+  sess (tx_parse true None) (tx_cfg true false) (tx_fdt None :: flatten x3_items)
+  = (repeat POk 14, [], [], [], copy_log 0 ++ copy_log 1 ++ copy_log 2).
+Proof. vm_compute; reflexivity. Qed.
+
+(* REFUTED: "exactly one copy" with receive-once ENABLED when a newer FDT instance (id 2) that does not list TOI 7 arrives
+   between two transfers: two copies; without it: one *)
+Example C01_once_newer_instance_without_object_refuted :
+  sess x3_parse2 (tx_cfg true false) (tx_fdt None :: x3_T false ++ [x3_fdt2] ++ x3_T false)
+  = (repeat POk 8, [], [7], [], copy_log 0 ++ copy_log 1)
+  /\ sess x3_parse2 (tx_cfg true false) (tx_fdt None :: x3_T false ++ x3_T false) = (repeat POk 7, [], [7], [], copy_log 0).
+Proof. vm_compute; split; reflexivity. Qed.
+
+(* REFUTED: "one per transfer" (receive-once disabled, cacheable object) when the transfers do not begin with symbol (0,0): the
+   three packets in the order (1,0) (0,0) (0,1), three times: two completed copies, a third writer left open, TOI 7 still in
+   the object map *)
+Example C01_restart_needs_first_symbol_refuted :
+  map pid_of x3_perm = [(1, 0); (0, 0); (0, 1)]
+  /\ sess (tx_parse false None) (tx_cfg false false) (tx_fdt None :: x3_perm ++ x3_perm ++ x3_perm)
+     = (repeat POk 10, [7], [], [],
+        copy_log 0 ++ copy_log 1 ++ [EvBuilder 7 WStore; EvOpen (7, 2%nat) true; EvWrite (7, 2%nat) [1; 2; 3; 4] true]).
+Proof. vm_compute; split; reflexivity. Qed.
+(* ===== end block: C01Transfers ===== *)
